@@ -216,6 +216,11 @@ def run_check(prop, tier, seed):
         cov = {"samples": []}
         violations, known_hits = [], []
 
+        # ---- the specification itself, exhaustively within bounds: runs beside the trace pipeline
+        mc_pool = ThreadPoolExecutor(max_workers=1)
+        mc_future = mc_pool.submit(lambda: [tlc_mc(m["module"], m["cfg"], workdir, m["tag"], m["timeout"], m.get("simulate"))
+                                            for m in props.mc_runs(prop, tier, seed)])
+
         # ---- implementation traces
         traces, src_stats = props.make_traces(prop, tier, seed, workdir, drive)
         results = validate(traces, {prop}, workdir)
@@ -256,9 +261,7 @@ def run_check(prop, tier, seed):
             uniq.append((hist, last))
 
         # ---- the specification itself, exhaustively within bounds (and the extra machinery)
-        mc = []
-        for m in props.mc_runs(prop, tier, seed):
-            mc.append(tlc_mc(m["module"], m["cfg"], workdir, m["tag"], m["timeout"], m.get("simulate")))
+        mc = mc_future.result()
         extra = props.extra_checks(prop, tier, seed, workdir, drive, build=BUILD)
         for x in extra.get("violations", []):
             uniq.append(x)
